@@ -241,19 +241,26 @@ func vh_C10_threshold(a []int) {
 }
 
 // vh_C02_foreignstep: authorization is per step.  Two steps with their own
-// pubkeys; every link is signed by one functionary (symbolic); a link counts
-// for a step only if its signer is listed for *that* step.
-// a = {#links per step}
+// pubkeys and their own certificate constraints; every link is signed by one
+// functionary (symbolic) and may carry a certificate; a link counts for a step
+// only if its signer is listed for *that* step or the certificate it carries
+// satisfies *that* step's constraints (oracle per step and certificate).
+// a = {#links per step, 1: a signature may carry its signer's certificate, 2: any functionary's certificate}
 func vh_C02_foreignstep(a []int) {
 	nl := a[0]
+	withCerts := 0
+	if len(a) > 1 {
+		withCerts = a[1]
+	}
 	layout := Layout{Keys: map[string]Key{}}
 	for i := 0; i < 3; i++ {
 		layout.Keys[vhFID[i]] = vhFKey(i)
 	}
 	// step s1 lists functionary 0 (and maybe 2), step s2 lists functionary 1 (and maybe 2)
 	both := vBool("f2-authorized-for-both")
-	s1 := Step{Type: "step", Threshold: 1, PubKeys: []string{vhFID[0], vIteStr(both, vhFID[2], "00000000")}, SupplyChainItem: SupplyChainItem{Name: "s1"}}
-	s2 := Step{Type: "step", Threshold: 1, PubKeys: []string{vhFID[1], vIteStr(both, vhFID[2], "00000001")}, SupplyChainItem: SupplyChainItem{Name: "s2"}}
+	cc := []CertificateConstraint{{CommonName: "*"}}
+	s1 := Step{Type: "step", Threshold: 1, PubKeys: []string{vhFID[0], vIteStr(both, vhFID[2], "00000000")}, SupplyChainItem: SupplyChainItem{Name: "s1"}, CertificateConstraints: cc}
+	s2 := Step{Type: "step", Threshold: 1, PubKeys: []string{vhFID[1], vIteStr(both, vhFID[2], "00000001")}, SupplyChainItem: SupplyChainItem{Name: "s2"}, CertificateConstraints: cc}
 	layout.Steps = []Step{s1, s2}
 	md := map[string]map[string]Metadata{}
 	want := [2]bool{}
@@ -264,13 +271,19 @@ func vh_C02_foreignstep(a []int) {
 			if _, dup := per[vhFID[signer]]; dup {
 				continue
 			}
-			m := &vhMeta{tag: "S" + strconv.Itoa(s) + "L" + strconv.Itoa(l), payload: Link{Type: "link"}, sigs: []Signature{{KeyID: vhFID[signer], Sig: "00"}}}
+			cert := ""
+			switch withCerts {
+			case 1:
+				cert = vPick("cert", "", vhFCert[signer])
+			case 2:
+				cert = vPick("cert", "", vhFCert[0], vhFCert[1], vhFCert[2])
+			}
+			m := &vhMeta{tag: "S" + strconv.Itoa(s) + "L" + strconv.Itoa(l), payload: Link{Type: "link"}, sigs: []Signature{{KeyID: vhFID[signer], Sig: "00", Certificate: cert}}}
 			per[vhFID[signer]] = m
 			valid := vUFBool("valid", m.tag, "0", vhFPub[signer])
-			authorized := signer == s || (signer == 2 && both)
-			if valid && authorized {
-				want[s] = true
-			}
+			byKey := signer == s || (signer == 2 && both)
+			byCert := vAnd(vEqStr(cert, vhFCert[signer]), vAnd(vUFBool("loads", vhFCert[signer]), vUFBool("constraint-ok", layout.Steps[s].Name, vhFCert[signer])))
+			want[s] = vOr(want[s], vAnd(valid, vOr(byKey, byCert)))
 		}
 		md[layout.Steps[s].Name] = per
 	}
